@@ -107,6 +107,13 @@ for fl in ("global", "thread", "async"):
     add(fl, ['max_memory = "1KB"'], dict(mem=1024), inval_on=True)
     add(fl, ["limit = 1", 'policy = "lru"'], dict(limit=1, policy="lru"), inval_on=True)
     add(fl, ['policy = "tlru"', 'max_memory = "1KB"', "frequency_weight = 3.0"], dict(policy="tlru", mem=1024, fw=3.0))
+    # ---- attribute order must not matter
+    add(fl, ["frequency_weight = 3.0", "limit = 2", 'policy = "tlru"'], dict(policy="tlru", limit=2, fw=3.0))
+    add(fl, ["frequency_weight = 0.3", 'policy = "tlru"', "limit = 2"], dict(policy="tlru", limit=2, fw=0.3))
+    add(fl, ["limit = 2", 'policy = "lru"'], dict(policy="lru", limit=2))
+    add(fl, ["ttl = 2", "limit = 1", 'policy = "lfu"'], dict(policy="lfu", limit=1, ttl=2))
+    add(fl, ['max_memory = "1KB"', 'policy = "arc"', "limit = 2"], dict(policy="arc", limit=2, mem=1024))
+    add(fl, ["limit = 1", f'name = "custom_{fid[0]}"'], dict(name=f"custom_{fid[0]}", limit=1))
     # ---- signature shapes and return types
     for sig in ("0", "2", "3", "4", "m"):
         add(fl, ["limit = 2", 'policy = "lru"'], dict(limit=2, policy="lru"), sig=sig)
